@@ -28,14 +28,15 @@ from concurrent.futures import ThreadPoolExecutor
 from lib import core
 
 DRIVER = "drv_rng"
+LEAN_TARGETS = ["OmplModel.Props.C20", DRIVER]
 U64 = (1 << 64) - 1
 LCG_M = 2147483563
 
-GEO = ["RRT", "RRTConnect", "RRTstar", "InformedRRTstar", "SORRTstar", "RRTsharp", "RRTXstatic", "LBTRRT",
+GEO = ["RRT", "RRT+is", "RRTConnect", "RRTConnect+is", "RRTstar", "InformedRRTstar", "SORRTstar", "RRTsharp", "RRTXstatic", "LBTRRT",
        "LazyLBTRRT", "LazyRRT", "TRRT", "BiTRRT", "LazyPRM", "LazyPRMstar", "KPIECE1", "BKPIECE1", "LBKPIECE1",
        "EST", "BiEST", "ProjEST", "SBL", "STRIDE", "PDST", "FMT", "BFMT", "BITstar", "ABITstar", "AITstar",
        "EITstar", "EIRMstar", "SST", "RLRT", "BiRLRT"]
-CTL = ["control::RRT", "control::SST", "control::EST", "control::KPIECE1", "control::PDST"]
+CTL = ["control::RRT", "control::RRT+is", "control::SST", "control::EST", "control::KPIECE1", "control::PDST"]
 MLV = ["QRRT", "QRRTStar", "QMP", "QMPStar"]
 # not deterministic by construction on this tree: observed (thorough tier, counted), never alarmed on
 EXCLUDED = {
@@ -259,13 +260,16 @@ def variant_env(v):
     """process variants: different environment-block size (moves the stack and, with ASLR, everything else),
     a different fill byte for fresh/freed heap memory, and (variant 1, 2) a fragmented heap so that the *relative*
     addresses of the planner's allocations differ too (ASLR alone shifts all pointers by one offset, which leaves
-    the iteration order of a pointer-keyed unordered container unchanged)."""
+    the iteration order of a pointer-keyed unordered container unchanged).  C20_STATE_FILL selects the in-bounds
+    filler the harness' state spaces leave in every freshly allocated state (1 in process A, 2 in process B, none in
+    the ASan process): "what a fresh state happens to contain" becomes a controlled input that differs between the
+    processes, independent of malloc internals."""
     if v == 0:
-        return {"MALLOC_PERTURB_": "17", "C20_PAD": ""}
+        return {"MALLOC_PERTURB_": "17", "C20_PAD": "", "C20_STATE_FILL": "1"}
     if v == 1:
-        return {"MALLOC_PERTURB_": "165", "C20_PAD": "x" * 5333, "C20_HEAP_NOISE": "12345"}
+        return {"MALLOC_PERTURB_": "165", "C20_PAD": "x" * 5333, "C20_HEAP_NOISE": "12345", "C20_STATE_FILL": "2"}
     if v == 2:      # addresses as in variant 1, heap fill as in variant 0 (classifies a divergence)
-        return {"MALLOC_PERTURB_": "17", "C20_PAD": "x" * 5333, "C20_HEAP_NOISE": "12345"}
+        return {"MALLOC_PERTURB_": "17", "C20_PAD": "x" * 5333, "C20_HEAP_NOISE": "12345", "C20_STATE_FILL": "1"}
     # variant 3 is used with the ASan build (its own allocator; leak reports are not this check's business)
     return {"MALLOC_PERTURB_": "90", "C20_PAD": "y" * 911,
             "ASAN_OPTIONS": "detect_leaks=0:abort_on_error=0:exitcode=99"}
@@ -298,14 +302,15 @@ def field(res, key):
 def planner_jobs(ck, tier):
     r = ck.rng.fork("planner-jobs")
     seeds = [1 + r.below(1000), 1 + r.below(1 << 30)]
+    # cz2/cz3/ctlz: compound spaces with a ZERO-weight SO(2) and a 1e-300-weight real component next to the
+    # positional part (what a sampler leaves unwritten there flows into queries, tree and path)
+    geo_envs = ["box2", "box3", "se2", "cz2", "cz3"]
     if tier == "quick":
-        seeds.append(7)
-        budgets = [200, 1200, 3000]
-        geo_envs = ["box2", "box3", "se2"]
-    else:
         seeds += [7, 1 + r.below(1 << 62)]
-        budgets = [120, 1000, 4000]
-        geo_envs = ["box2", "box3", "se2"]
+        budgets = [200, 700, 1500, 3000]
+    else:
+        seeds += [7, 1 + r.below(1 << 62), 1 + r.below(1 << 20), 1 + r.below(1 << 40)]
+        budgets = [60, 120, 500, 1000, 2500, 4000]
     jobs = []
     for s in seeds:
         for b in budgets:
@@ -315,6 +320,7 @@ def planner_jobs(ck, tier):
                     jobs.append((pl, e, s, bb))
             for pl in CTL:
                 jobs.append((pl, "ctl2", s, b))
+                jobs.append((pl, "ctlz", s, b))
             for pl in MLV:
                 jobs.append((pl, "ml3", s, b))
     return sorted(set(jobs))
@@ -546,8 +552,8 @@ def run(ck):
                        "of the state; they are not proved deterministic",
                        "excluded as non-deterministic by design: " + "; ".join("%s (%s)" % kv for kv in sorted(EXCLUDED.items())),
                        "not constructed generically: " + "; ".join("%s (%s)" % kv for kv in sorted(NOT_CONSTRUCTED.items()))]
-    ck.lean_build(["OmplModel.Props.C20", DRIVER])
-    ck.audit()
+    ck.lean_build(LEAN_TARGETS)
+    ck.audit(roots=["Drv.Rng"])
     if ck.tier == "thorough" and ck.lean_ok:
         ck.leanchecker(["OmplModel.Props.C20"])
     hbin = ck.build_harness("rng", ["rng.cpp"], link_ompl=True)
